@@ -36,7 +36,11 @@ def modelled(inst, t):
     if t["cfg"].get("parallel"):
         return "parallel initialisation"
     for k in up:
-        if k.startswith("regression.momentum") or k.startswith("growing.") and k not in ("growing.ndirs_initial",) or k.startswith("restarts.auto_detect") \
+        if k == "growing.do_geom_steps" and not up[k]:
+            continue
+        # (restarts.auto_detect.* only move the moment at which the auto-detected restart fires - an environment choice in Dfols.tla; momentum steps
+        #  evaluate into the furthest slots exactly like the geometry variant of the regression steps)
+        if k.startswith("growing.") and k not in ("growing.ndirs_initial", "growing.num_new_dirns_each_iter") \
                 or k in ("restarts.soft.num_geom_steps", "restarts.soft.move_xk", "restarts.increase_npt_amt", "restarts.hard.increase_ndirs_initial_amt",
                          "general.safety_step_thresh", "init.random_initial_directions"):
             return "option %s" % k
@@ -157,7 +161,7 @@ def constants(inst, t, snaps):
     c = dict(MaxFun=int(inst.get("maxfun", 60)), NPT=int(rb[0]["npt"]), VMax=top, Small=small, MaxSamples=maxs, WithInf=True,
              UseRestarts=bool(restarts) or bool(inst.get("noise")), SoftRestarts=(restarts in (None, "soft")), MaxUnsucc=int(inst.get("maxunsucc", up.get("restarts.max_unsuccessful_restarts", 10))),
              NumGeom=3, MoveXk=True, UseOldRk=(restarts != "hardnew"), IncNpt=int(inst.get("incnpt") or 0), RhoLevels=int(snaps[0].get("K", 0)) if False else _rho_levels(ev),
-             RhoendScaleDrop=1 if float(inst.get("rhoend_scale", 1.0)) < 1.0 else 0, MaxRuns=nrest + 3, NdirsInit=int(inst.get("growing") or up.get("growing.ndirs_initial", 0) or 0), RhoDropAny=True, NoisyObjective=not bool(t["cfg"]["det"]), WithHuge=True,
+             RhoendScaleDrop=1 if float(inst.get("rhoend_scale", 1.0)) < 1.0 else 0, MaxRuns=nrest + 3, NdirsInit=int(inst.get("growing") or up.get("growing.ndirs_initial", 0) or 0), RhoDropAny=True, NoisyObjective=not bool(t["cfg"]["det"]), WithHuge=True, NewDirs=int(up.get("growing.num_new_dirns_each_iter", 0) or 0),
              WithNoise=bool(up.get("noise.quit_on_noise_level") or inst.get("noise")), RegSteps=int(up.get("regression.num_extra_steps", 0) or 0), WithAuto=True, WithFalseSuccess=True)
     return c
 
